@@ -91,16 +91,32 @@ def direction_table(ctx, v, compute_rx, roles, rule, amount_arg=None, amount_rol
             idx = index_of_site(v, c.block, c.term, 1)
             te, fe = cmp_true_false_edges(v, b, c)
             guards.append((b, who, idx, fe if c.neg else te))
+    # configurations: the maximal sets of guard true-edges that jointly dominate some block (the leaves of the if-ladder)
+    allb = set(v.live_blocks())
+    gdom = {}
+    for k, (gb, who, gi, te) in enumerate(guards):
+        if te:
+            gdom[k] = {x for x in allb if v.edge_dominated(x, te)}
+    per_block = {}
+    for x in allb:
+        ks = frozenset(k for k, d in gdom.items() if x in d)
+        if ks:
+            per_block.setdefault(ks, set()).add(x)
+    leaves = [ks for ks in per_block if not any(ks < other for other in per_block)]
     table = {}
-    for sb, role in sorted(site_role.items()):
-        idx = index_of_site(v, sb, v.blocks[sb]["t"], 0)
-        # which guard true-edges dominate this site
-        doms = []
-        for gb, who, gi, te in guards:
-            if te and v.edge_dominated(sb, te):
-                doms.append((who, gi))
-        key = tuple(sorted(doms))
-        table.setdefault(key, {})[role] = idx
+    for ks in sorted(leaves, key=sorted):
+        key = tuple(sorted((guards[k][1], guards[k][2]) for k in ks))
+        # provenance of each role argument with the definitions made under the other branches ignored
+        others = set().union(*[d for k, d in gdom.items() if k not in ks])
+        with v.restricted(set(range(v.n)) - others):
+            with v.opaque(CLONE):
+                for role, argi in roles.items():
+                    idxs = set()
+                    for o in v.origins_of_operand(ct["args"][argi], at=v.at_term(cb)):
+                        if o.kind == "call" and re.search(CLONE, o.a):
+                            sb = int(o.b.rsplit(":bb", 1)[1])
+                            idxs.add(index_of_site(v, sb, v.blocks[sb]["t"], 0))
+                    table.setdefault(key, {})[role] = next(iter(idxs)) if len(idxs) == 1 else None
     return table
 
 
@@ -181,74 +197,69 @@ def check_pair_directions(ctx, model, rule="C14-S3"):
                     guards.append((index_of_site(v, c.block, c.term, 1), fe if c.neg else te))
             bad = []
             n = 0
-            for argi, role in ((5, "offer"), (6, "ask")):
-                a = ct["args"][argi]
-                if a["k"] not in ("copy", "move"):
-                    continue
-                work = [a["pl"]["l"]]
-                seen = set()
-                while work:
-                    l = work.pop()
-                    if l in seen:
-                        continue
-                    seen.add(l)
-                    for d in v.defs().get(l, []):
-                        if d[0] != "s":
-                            continue
-                        rv = d[3]["rv"]
-                        if rv["r"] == "use" and rv["op"]["k"] in ("copy", "move"):
-                            src = rv["op"]["pl"]
-                            idx_l = [e["i"] for e in src["p"] if isinstance(e, dict) and "i" in e]
-                            cidx = [e["ci"] for e in src["p"] if isinstance(e, dict) and "ci" in e]
-                            if idx_l or cidx:
-                                k = const_of(v, {"k": "copy", "pl": {"l": idx_l[0], "p": []}}, (d[1], d[2])) if idx_l else cidx[0]
-                                if k is None:
-                                    continue
-                                n += 1
-                                doms = [gi for gi, te in guards if te and v.edge_dominated(d[1], te)]
-                                if not doms:
-                                    bad.append("%s_decimal = asset_decimals[%s] outside any direction branch" % (role, k))
-                                    continue
-                                jdx = doms[-1]
-                                want = jdx if role == "offer" else 1 - jdx
-                                if k != want:
-                                    bad.append("offer==pools[%s]: %s_decimal = asset_decimals[%s]" % (jdx, role, k))
-                            elif "*" in src["p"]:
-                                # *index(asset_decimals, k)
-                                k = None
-                                for dd in v.defs().get(src["l"], []):
-                                    if dd[0] == "c" and re.search(r"as std::ops::Index<usize>>::index$", mname(dd[2])):
-                                        k = const_of(v, dd[2]["args"][1], v.at_term(dd[1]))
-                                if k is None:
-                                    continue
-                                n += 1
-                                doms = [gi for gi, te in guards if te and v.edge_dominated(d[1], te)]
-                                if not doms:
-                                    bad.append("%s_decimal = asset_decimals[%s] outside any direction branch" % (role, k))
-                                    continue
-                                jdx = doms[-1]
-                                want = jdx if role == "offer" else 1 - jdx
-                                if k != want:
-                                    bad.append("offer==pools[%s]: %s_decimal = asset_decimals[%s]" % (jdx, role, k))
-                            else:
-                                work.append(src["l"])
+            allb = set(v.live_blocks())
+            dom_of = {}
+            for gi, te in guards:
+                if te and gi is not None:
+                    dom_of[gi] = {x for x in allb if v.edge_dominated(x, te)}
+            for jdx, mine in sorted(dom_of.items()):
+                # provenance of the two decimals arguments in the configuration `offer == pools[jdx]`: definitions made under
+                # another direction's branch are ignored
+                others = set().union(*[d for g, d in dom_of.items() if g != jdx]) if len(dom_of) > 1 else set()
+                with v.restricted(set(range(v.n)) - others):
+                    for argi, role in ((5, "offer"), (6, "ask")):
+                        os_ = v.origins_of_operand(ct["args"][argi], at=v.at_term(cb))
+                        ks = set()
+                        for o in os_:
+                            pr = list(o.proj)
+                            k = None
+                            if "asset_decimals" in pr:
+                                i = pr.index("asset_decimals")
+                                if i + 1 < len(pr) and re.fullmatch(r"\[\d+\]", str(pr[i + 1])):
+                                    k = int(pr[i + 1][1:-1])
+                            ks.add(k)
+                        want = jdx if role == "offer" else 1 - jdx
+                        if ks == {want}:
+                            n += 1
+                        elif not ks or None in ks:
+                            bad.append("offer==pools[%s]: %s_decimal is not a constant element of asset_decimals (%s)" % (jdx, role, sorted(map(repr, os_))))
+                        else:
+                            bad.append("offer==pools[%s]: %s_decimal = asset_decimals%s" % (jdx, role, sorted(ks)))
             ctx.ob(rule, "%s|decimals-table" % p, not bad and n == 4, ("MISMATCH %s | " % bad if bad else "") + "%d decimal assignments follow the direction table" % n, v.where())
 
 
-def arg_classes(v, b, t, i):
-    """Provenance classes of a compute_swap argument (coarse, names only)."""
+_CLASS_CALLS = ("query_pools", "get_protocol_fee_for_asset", "checked_sub", "StableSwap::new", "query_balance", "query_wasm_smart")
+
+
+def _classes(v, origins, depth=0):
     out = set()
-    for o in v.origins_of_operand(t["args"][i], at=v.at_term(b), taint=True):
+    for o in origins:
         if o.kind == "load":
             out.add("load:%s%s" % (o.a.split("::")[-1], "." + ".".join(o.proj) if o.proj else ""))
         elif o.kind == "call":
-            short = o.a.split("::")[-1] if "<" not in o.a else re.sub(r".*::", "", o.a)
-            if any(k in o.a for k in ("query_pools", "get_protocol_fee_for_asset", "checked_sub", "StableSwap::new", "query_balance", "query_wasm_smart")):
+            if any(k in o.a for k in _CLASS_CALLS):
                 out.add("call:%s" % re.sub(r"^.*::", "", o.a))
         elif o.kind == "param":
             ty = v.local_ty(o.a)
             out.add("param:%s%s" % (ty.split("::")[-1], "." + ".".join(o.proj) if o.proj else ""))
+        elif o.kind == "closure" and depth < 2 and getattr(v, "model", None) is not None and o.a in v.model.fnsrc:
+            # an iterator pipeline is the loop it stands for: what the closure captured and what its body computes
+            for cb, cp, ops in v.closures_created():
+                if cp == o.a:
+                    for op in ops:
+                        sub = v.origins_of_operand(op, at=(cb, len(v.blocks[cb]["s"])), taint=True)
+                        out |= {c for c in _classes(v, sub, depth + 1) if not c.startswith("param:")}
+            cv = v.model.view(o.a)
+            for xb, xt in cv.iter_calls():
+                n = mname(xt)
+                if any(k in n for k in _CLASS_CALLS):
+                    out.add("call:%s" % re.sub(r"^.*::", "", n))
     return out
+
+
+def arg_classes(v, b, t, i):
+    """Provenance classes of a compute_swap argument (coarse, names only)."""
+    return _classes(v, v.origins_of_operand(t["args"][i], at=v.at_term(b), taint=True))
 
 
 def check_sim_vs_swap(ctx, model, crate, nargs):
@@ -317,9 +328,12 @@ def check_vault_share(ctx, model):
     def shape(v):
         out = {}
         for b, t in v.iter_calls():
-            if re.search(r"as std::ops::Mul<cosmwasm_std::Uint128>>::mul$", mname(t)):
-                l = v.origins_of_operand(t["args"][0], at=v.at_term(b))
-                r = v.origins_of_operand(t["args"][1], at=v.at_term(b), taint=True)
+            if re.search(r"^<cosmwasm_std::Decimal as std::ops::Mul<cosmwasm_std::Uint128>>::mul$"
+                         r"|^<cosmwasm_std::Uint128 as std::ops::Mul<cosmwasm_std::Decimal>>::mul$|^cosmwasm_std::Uint128::mul_floor$", mname(t)):
+                # share * balance in either operand order (Decimal * Uint128 is defined as Uint128 * Decimal)
+                ia = 0 if mname(t).startswith("<cosmwasm_std::Decimal as") else 1
+                l = v.origins_of_operand(t["args"][ia], at=v.at_term(b))
+                r = v.origins_of_operand(t["args"][1 - ia], at=v.at_term(b), taint=True)
                 ratio = None
                 for o in l:
                     c = call_of(v, o)
